@@ -1,7 +1,7 @@
 (* C16 - generic models: type arguments are substituted through the class hierarchy.
    Statements only; proofs in Proofs/GenericProofs.v, model in Model/Generic.v. *)
 From Coq Require Import List Arith Bool.
-From AV Require Import Model.Generic Proofs.GenericProofs.
+From AV Require Import Model.Generic Proofs.GenericProofs Proofs.GenericMore.
 Import ListNotations.
 
 (* for every well-formed class table (annotations mention only the class's own parameters; every base is applied to as
@@ -21,3 +21,40 @@ Theorem C16_substitution_composes : forall table, (forall C, wf_cls table C) ->
   option_map (subst s) (spec table fuel C args f) = spec table fuel C (map (subst s) args) f.
 Proof. intros table WF s. exact (spec_subst table WF s). Qed.
 Print Assumptions C16_substitution_composes.
+
+
+(* "every type variable replaced": with arguments that mention no variable, the type used for a field mentions none *)
+Theorem C16_resolved_type_has_no_variable : forall table, (forall C, wf_cls table C) ->
+  forall fuel C args f t, List.length args = List.length (params (table C)) ->
+  Forall (fun a => closed a = true) args -> resolve table fuel C args f = Some t -> closed t = true.
+Proof. exact resolved_type_has_no_variable. Qed.
+Print Assumptions C16_resolved_type_has_no_variable.
+
+(* "shadowed by an overriding annotation": the class's own annotation decides, whatever its bases declare *)
+Theorem C16_own_annotation_shadows : forall table, (forall C, wf_cls table C) ->
+  forall fuel C args f t, List.length args = List.length (params (table C)) ->
+  assoc f (own (table C)) = Some t -> resolve table (S fuel) C args f = Some (subst (bind table C args) t).
+Proof. exact own_annotation_shadows. Qed.
+Print Assumptions C16_own_annotation_shadows.
+
+(* "threaded through (multi-level) inheritance": an inherited field is the field of the first base that has it, that base
+   applied to its arguments as written in the class with the class's own parameters substituted *)
+Theorem C16_inherited_through_base : forall table, (forall C, wf_cls table C) ->
+  forall fuel C args f, List.length args = List.length (params (table C)) ->
+  assoc f (own (table C)) = None ->
+  resolve table (S fuel) C args f =
+  first_some (map (fun b => resolve table fuel (fst b) (map (subst (bind table C args)) (snd b)) f) (bases (table C))).
+Proof. exact inherited_through_base. Qed.
+Print Assumptions C16_inherited_through_base.
+
+(* "or left bare": the implicit parameter of each variable (Any, the bound, the union of the constraints - C15 proves
+   which) takes the place of the missing argument, and no variable survives *)
+Theorem C16_bare_is_implicit_substitution : forall table, (forall C, wf_cls table C) -> forall implicit fuel C f,
+  resolve_bare table implicit fuel C f = spec table fuel C (map implicit (params (table C))) f.
+Proof. exact bare_is_implicit_substitution. Qed.
+Print Assumptions C16_bare_is_implicit_substitution.
+
+Theorem C16_bare_has_no_variable : forall table, (forall C, wf_cls table C) -> forall implicit,
+  (forall v, closed (implicit v) = true) -> forall fuel C f t, resolve_bare table implicit fuel C f = Some t -> closed t = true.
+Proof. exact bare_has_no_variable. Qed.
+Print Assumptions C16_bare_has_no_variable.
